@@ -115,6 +115,21 @@ CHECKS['C10'] = dict(
     technique='Lean 4 proof (loop invariants of the greedy fill by induction over the word list) + correspondence of the real classmethods + four-clause exploration on nested documents',
     ref='DESIGN.md section 5, C10')
 
+CHECKS['C11'] = dict(
+    text='Lean 4 theorems over a state machine of the process-global parser state (token lists, code-match hand-over, '
+         'parse_setext, _root_node, html._charref), for histories, parse programs and exception points of any length: '
+         'exit resets the token lists to the defaults; a with-block over any bundled renderer, started clean, ends clean '
+         'whatever is parsed inside and wherever a parse raises; by induction every history ends clean; what a parse '
+         'hands through the code-match global does not depend on the state it starts in. Constructor effects are '
+         'regenerated from the code on every run. The model is tied to the library by running the same histories '
+         '(custom raising tokens at every list position and phase) and comparing the globals after every block; the '
+         'property itself is explored by comparing probe outputs after each history with a fresh interpreter.',
+    note='Trusted: Lean kernel (axioms propext/Classical.choice/Quot.sound at most); the abstract parse programs are '
+         'hand-written per scenario and validated by the state unit; with-blocks are not nested (an inner exit also '
+         'removes the outer renderer tokens: outside the claim); fresh-interpreter baseline from a subprocess.',
+    technique='Lean 4 proof (invariant by induction over operation histories of a state machine) + history replay against a fresh interpreter',
+    ref='DESIGN.md section 5, C11')
+
 NOT_YET = {}
 
 
